@@ -86,7 +86,10 @@ SigOK(e, s) == /\ e.sigbad = <<>>
                /\ \A w \in Wallets : {<<k[1], k[2], k[3]>> : k \in ToSet(e.sig[w])} =
                                      IF s.up[w] /\ s.unlocked[w] THEN IssuedKeys(s, w) ELSE {}   \* C05 / C03
 ClearOK(e) == "clear" \in DOMAIN e => e.clear = <<>>                                   \* C04
-ProjOK(e, s) == RunOK(e, s) /\ ReoOK(e, s) /\ SecOK(e, s) /\ SigOK(e, s) /\ ClearOK(e) /\ e.keyok = TRUE
+\* C12: after an operation that reported a storage error and let the process go on, the running instance still behaves as
+\* before towards passphrases: exactly the current private passphrase unlocks it
+RunlOK(e, s) == "runl" \in DOMAIN e => \A w \in DOMAIN e.runl : HasKs(s, w) => ToSet(e.runl[w]) = {s.priv[w]}
+ProjOK(e, s) == RunOK(e, s) /\ ReoOK(e, s) /\ SecOK(e, s) /\ SigOK(e, s) /\ ClearOK(e) /\ RunlOK(e, s) /\ e.keyok = TRUE
 
 \* outputs of a successful call
 OutOK(e, op, s) ==
